@@ -936,11 +936,20 @@ pub fn judge_exec(id: &str, sc: &Scenario, stats: &mut ExecStats) -> (Judged, Ru
                         if *mode == Mode::FuncEntry {
                             let first_other = d.iter().position(|(_, ev)| !is_probe(ev));
                             let pos = d.iter().position(|(_, ev)| *ev == p);
-                            let ok = n == 1 && match (pos, first_other) {
-                                (Some(pp), Some(fo)) => pp < fo,
-                                (Some(_), None) => true,
-                                _ => false,
-                            };
+                            // an exit probe of the SAME function ahead of the entry probe: the function was
+                            // "left" before it was "entered" (probes that are not shared between sites only)
+                            let exit_first = pos.map_or(false, |pp| {
+                                d[..pp].iter().any(|(_, ev)| {
+                                    accepted.iter().any(|(f2, m2, md2, _)| f2 == func && *md2 == Mode::FuncExit && !shared_magics.contains(m2) && *ev == Ev::Probe(*m2))
+                                })
+                            });
+                            let ok = !exit_first
+                                && n == 1
+                                && match (pos, first_other) {
+                                    (Some(pp), Some(fo)) => pp < fo,
+                                    (Some(_), None) => true,
+                                    _ => false,
+                                };
                             if !ok {
                                 push(
                                     "C17",
